@@ -4,7 +4,10 @@ import NucsProofs.Propagators.CountEq
 import NucsProofs.Propagators.Counting
 import NucsProofs.Propagators.Dummy
 import NucsProofs.Propagators.Element
+import NucsProofs.Propagators.Lex
 import NucsProofs.Propagators.MinMax
+import NucsProofs.Propagators.NoSubCycle
+import NucsProofs.Propagators.Scc
 
 /-!
   C07 — a constraint is declared entailed only when it can no longer be violated.
@@ -24,13 +27,14 @@ theorem C07_elementLic : EntailOk .elementLic := entailOk_elementLic
 theorem C07_elementLiv : EntailOk .elementLiv := entailOk_elementLiv
 theorem C07_exactlyEq : EntailOk .exactlyEq := entailOk_exactlyEq
 theorem C07_exactlyTrue : EntailOk .exactlyTrue := entailOk_exactlyTrue
+theorem C07_lexLeq : EntailOk .lexLeq := entailOk_lexLeq
 theorem C07_maxLeq : EntailOk .maxLeq := entailOk_maxLeq
 theorem C07_minGeq : EntailOk .minGeq := entailOk_minGeq
 theorem C07_relation : EntailOk .relation := entailOk_relation
 
 /-- algorithms for which `EntailOk` is stated (Spec.lean) but not proved here: validated by the
     correspondence and the brute-force oracle only -/
-def C07_unproved : List Alg := [.lexLeq]
+def C07_unproved : List Alg := []
 
 /-- non-vacuity: an in-contract call that answers `entailed` -/
 example : runAlg .affineLeq [1, 1, 10] [(0, 5), (0, 5)] = .ok (.ent, [(0, 5), (0, 5)]) := by rfl
